@@ -184,3 +184,89 @@ func ZZC16Infer() {
 }
 
 func init() { vn.Register("types.ZZC16Infer", ZZC16Infer) }
+
+// ZZC16Cycles: mutually recursive definitions whose mode is fixed in only one place of the
+// cycle, used by a further definition, in every declaration order.
+//
+//	ping = C(pong)     pong = &{a : ping, b : X}     user = D(ping)     [leaf = m 1]
+//
+// The anchor that fixes the mode m is (0) the annotated leaf referenced as X, (1) an annotation
+// on pong, (2) an annotation on ping, or (3) absent (everything defaults to replicable). All
+// definitions must end up in the anchor's mode with no node left unset, the set must be accepted,
+// and the result must not depend on the order of the declarations (all 24 orders).
+func ZZC16Cycles() {
+	mIdx := vn.Int(0, 3)
+	anchor := vn.Pick(4)
+	ctx := vn.Pick(3)
+	userKind := vn.Pick(2)
+	perm := vn.Pick(24)
+	la, lb := zzLabelName(vn.Int(0, 2)), zzLabelName(vn.Int(0, 2))
+	vn.Assume(vn.Not(vn.EqS(la, lb)))
+	mode := func() Modality { return zzMode(mIdx, 4) }
+	name := func(s string) SessionTypeInitial { return NewLabelTypeInitial(s) }
+	unit := func() SessionTypeInitial { return NewUnitTypeInitial() }
+
+	var ping SessionTypeInitial
+	switch ctx {
+	case 0:
+		ping = NewSelectLabelTypeInitial([]OptionInitial{*NewOptionInitial(la, name("pong"))})
+	case 1:
+		ping = NewSendTypeInitial(name("pong"), unit())
+	default:
+		ping = NewReceiveTypeInitial(unit(), name("pong"))
+	}
+	x := unit()
+	if anchor == 0 {
+		x = name("leaf")
+	}
+	var pong SessionTypeInitial = NewBranchCaseTypeInitial([]OptionInitial{*NewOptionInitial(la, name("ping")), *NewOptionInitial(lb, x)})
+	if anchor == 1 {
+		pong = NewExplicitModeTypeInitial(mode(), pong)
+	}
+	if anchor == 2 {
+		ping = NewExplicitModeTypeInitial(mode(), ping)
+	}
+	var user SessionTypeInitial
+	if userKind == 0 {
+		user = NewSendTypeInitial(name("ping"), unit())
+	} else {
+		user = NewSelectLabelTypeInitial([]OptionInitial{*NewOptionInitial(lb, name("ping"))})
+	}
+	leaf := NewExplicitModeTypeInitial(mode(), unit())
+	all := []struct {
+		n string
+		t SessionTypeInitial
+	}{{"ping", ping}, {"pong", pong}, {"user", user}, {"leaf", leaf}}
+	// the perm-th permutation of the four declarations
+	idx := []int{0, 1, 2, 3}
+	var order []int
+	for r, left := perm, 4; left > 0; left-- {
+		order = append(order, idx[r%left])
+		idx = append(idx[:r%left], idx[r%left+1:]...)
+		r /= left
+	}
+	var defs []SessionTypeDefinition
+	for _, i := range order {
+		defs = append(defs, SessionTypeDefinition{Name: all[i].n, SessionType: ConvertSessionTypeInitialToSessionType(all[i].t)})
+	}
+	SetModalityTypeDef(defs)
+	err := SanityChecksTypeDefinitions(defs)
+	want := mIdx
+	if anchor == 3 {
+		want = 0 // replicable (index 0 of zzMode)
+	}
+	ok := true
+	unset := false
+	for i := range defs {
+		unset = vn.Or(unset, vn.Or(zzIsMode(defs[i].Modality, zzUnsetIdx), zzAnyUnset(defs[i].SessionType)))
+		if defs[i].Name != "leaf" {
+			ok = vn.And(ok, zzIsMode(defs[i].Modality, want))
+		}
+	}
+	vn.Assert("C16.recursive-definitions-get-the-anchor-mode", ok)
+	vn.Assert("C16.recursive-definitions-no-unset-mode", vn.Not(unset))
+	vn.Assert("C16.recursive-definitions-accepted-in-every-order", err == nil)
+	vn.Observe("accepted", err == nil)
+}
+
+func init() { vn.Register("types.ZZC16Cycles", ZZC16Cycles) }
